@@ -3,6 +3,7 @@ module verif
 go 1.25.0
 
 require (
+	github.com/bmatcuk/doublestar/v4 v4.10.0
 	github.com/mutagen-io/mutagen v0.0.0
 	golang.org/x/sys v0.43.0
 	google.golang.org/protobuf v1.36.11
@@ -10,7 +11,6 @@ require (
 )
 
 require (
-	github.com/bmatcuk/doublestar/v4 v4.10.0 // indirect
 	github.com/eknkc/basex v1.0.1 // indirect
 	github.com/google/go-cmp v0.7.0 // indirect
 	github.com/google/uuid v1.6.0 // indirect
